@@ -11,6 +11,7 @@
 #include <signal.h>
 #include <sys/stat.h>
 #include <sys/types.h>
+#include <sys/personality.h>
 #include <sys/wait.h>
 #include <time.h>
 #include <unistd.h>
@@ -730,6 +731,7 @@ inline ChildResult execReplay(const Options& opt, const std::string& file, const
         int dn = open(errPath.c_str(), O_WRONLY | O_CREAT | O_TRUNC, 0644);
         if (dn >= 0) dup2(dn, 2);
         alarm(300);   // survives the exec: a replay that does not end is killed with SIGALRM and classified as signal:14
+        personality(ADDR_NO_RANDOMIZE);   // the same address-space layout in every replay process
         std::vector<std::string> args = {opt.self, "--replay", file, "--property", opt.property, "--flavour", opt.flavour};
         if (!opt.mode.empty()) { args.push_back("--mode"); args.push_back(opt.mode); }
         for (auto& a : extraArgs) args.push_back(a);
